@@ -32,6 +32,12 @@ class Aff:
     def __neg__(self):
         return Aff(-self.c, {k: -v for k, v in self.t.items()})
 
+    def __radd__(self, o):
+        return self + o
+
+    def __rsub__(self, o):
+        return (-self) + o
+
     def __sub__(self, o):
         return self + (-lift(o))
 
@@ -104,6 +110,7 @@ class Path:
         self.raise_text = ''
         self.events: List[Tuple[str, Any]] = []
         self.afacts: List[Aff] = []          # affine forms known to be == 0 on this path
+        self.aconds: List[Tuple[Aff, str, bool]] = []   # (lhs - rhs, comparison operator, truth) of affine comparisons taken
 
     def fork(self):
         p = Path()
@@ -112,6 +119,7 @@ class Path:
         p.locs = list(self.locs)
         p.events = list(self.events)
         p.afacts = list(self.afacts)
+        p.aconds = list(self.aconds)
         return p
 
 
@@ -279,6 +287,53 @@ class Interp:
             return f
         return None
 
+    _OPS = {ast.Lt: '<', ast.LtE: '<=', ast.Gt: '>', ast.GtE: '>=', ast.Eq: '==', ast.NotEq: '!='}
+    _NEG = {'<': '>=', '<=': '>', '>': '<=', '>=': '<', '==': '!=', '!=': '=='}
+
+    def split(self, p: Path, test) -> List[Tuple[Path, bool]]:
+        """paths on which `test` is true / false; and/or/not and comparison chains are decomposed so that every
+        affine comparison taken is recorded in path.aconds"""
+        if isinstance(test, ast.UnaryOp) and isinstance(test.op, ast.Not):
+            return [(q, not t) for q, t in self.split(p, test.operand)]
+        if isinstance(test, ast.BoolOp):
+            is_and = isinstance(test.op, ast.And)
+            live = [(p, None)]
+            done: List[Tuple[Path, bool]] = []
+            for v in test.values:
+                nxt = []
+                for q, _ in live:
+                    for q2, t in self.split(q, v):
+                        if t is (not is_and):      # decided: `and` fails on False, `or` succeeds on True
+                            done.append((q2, not is_and))
+                        else:
+                            nxt.append((q2, None))
+                live = nxt
+            return done + [(q, is_and) for q, _ in live]
+        if isinstance(test, ast.Compare) and len(test.ops) > 1:
+            parts = []
+            left = test.left
+            for op, right in zip(test.ops, test.comparators):
+                parts.append(ast.Compare(left=left, ops=[op], comparators=[right]))
+                left = right
+            return self.split(p, ast.BoolOp(op=ast.And(), values=parts))
+        bt = self.branch_truth(p, test)
+        if bt is not None:
+            return [(p, bt)]
+        a, b = p.fork(), p.fork()
+        a.conds.append((unparse(test), True))
+        b.conds.append((unparse(test), False))
+        if isinstance(test, ast.Compare) and len(test.ops) == 1 and type(test.ops[0]) in self._OPS:
+            l, r = self.ev(p.fork(), test.left), self.ev(p.fork(), test.comparators[0])
+            if isinstance(l, Aff) and isinstance(r, Aff):
+                op = self._OPS[type(test.ops[0])]
+                a.aconds.append((l - r, op, True))
+                b.aconds.append((l - r, op, False))
+                if op == '==':
+                    a.afacts.append(l - r)
+                elif op == '!=':
+                    b.afacts.append(l - r)
+        return [(a, True), (b, False)]
+
     def run_block(self, paths: List[Path], stmts) -> List[Path]:
         for st in stmts:
             live = [p for p in paths if p.end == 'fallthrough']
@@ -334,14 +389,16 @@ class Interp:
                 return self.run_block([p], st.body)
             if t is False:
                 return self.run_block([p], st.orelse)
-            a, b = p.fork(), p.fork()
-            a.conds.append((unparse(st.test), True))
-            b.conds.append((unparse(st.test), False))
-            if isinstance(st.test, ast.Compare) and len(st.test.ops) == 1 and isinstance(st.test.ops[0], (ast.Eq, ast.NotEq)):
-                l, r = self.ev(p.fork(), st.test.left), self.ev(p.fork(), st.test.comparators[0])
-                if isinstance(l, Aff) and isinstance(r, Aff):
-                    (a if isinstance(st.test.ops[0], ast.Eq) else b).afacts.append(l - r)
-            return self.run_block([a], st.body) + self.run_block([b], st.orelse)
+            out = []
+            for q, truth in self.split(p, st.test):
+                out += self.run_block([q], st.body if truth else st.orelse)
+            return out
+        if isinstance(st, ast.Break):
+            p.end = 'break'
+            return [p]
+        if isinstance(st, ast.Continue):
+            p.end = 'continue'
+            return [p]
         if isinstance(st, ast.Return):
             p.ret = self.ev(p, st.value) if st.value is not None else None
             p.end = 'return'
@@ -361,7 +418,7 @@ class Interp:
             for n in ast.walk(st):
                 if isinstance(n, ast.Name) and isinstance(n.ctx, ast.Store):
                     p.env[n.id] = self._leaf(f"{n.id}@loop{st.lineno}")
-            p.events.append(('loop', st.lineno))
+            p.events.append(('loop', unparse(st.iter) if isinstance(st, ast.For) else unparse(st.test)))
             return [p]
         if isinstance(st, ast.With):
             return self.run_block([p], st.body)
